@@ -875,6 +875,21 @@ func (b mirrorBackend) Upload(ctx context.Context, key string, data []byte, opts
 		}
 		r.note(fmt.Sprintf("mupload:%s", out))
 		s.w.st.Count(fmt.Sprintf("effect:mupload:%s", out))
+		if applied && okP && lg != nil {
+			// record before publish: what becomes publicly readable as the mirror checkpoint is what the lock store holds
+			// for this mirror at that instant (a checkpoint published but not recorded can be followed by a smaller one)
+			recorded := false
+			for id, inf := range s.ids {
+				if inf.kind == "mirror" && inf.lg == lg {
+					if _, ln, lroot, okL := mirrorNoteSize(s.lock[id]); okL && ln == n && lroot == root {
+						recorded = true
+					}
+				}
+			}
+			if !recorded {
+				s.w.fail("mirror-published-not-recorded", "request %d published the mirror checkpoint (size %d) of %q while the lock store does not hold it", r.rid, n, lg.origin)
+			}
+		}
 		if out == mirrorOK {
 			r.mupOK = true
 		}
